@@ -117,6 +117,8 @@ def inject(ws, pid, cfg, tier):
     above the listed function signatures.  Existing lines are never altered."""
     injected = []
     crates = sorted({g["crate"] for g in cfg["groups"] if g["engine"] == "kani"})
+    for g in cfg["groups"]:
+        g.setdefault("modules", [])
     for crate in crates:
         mods = ["spec", "vk"]
         for g in cfg["groups"]:
@@ -134,6 +136,10 @@ def inject(ws, pid, cfg, tier):
         with open(lib, "a") as f:
             if crate == "scpi":
                 f.write('\n#[cfg(kani)] extern crate self as scpi;')
+                hook = os.path.join(ws, "scpi/src/parser/response/mod.rs")
+                if os.path.exists(hook):
+                    with open(hook, "a") as hf:
+                        hf.write('\n#[cfg(kani)] #[path = "%s/hook_response.rs"] pub mod verif_hook;\n' % KDIR)
             f.write('\n#[cfg(kani)] #[path = "%s"] pub mod verif_contracts;\n' % modfile)
     inj_path = os.path.join(KDIR, "inject.json")
     wanted = set()
@@ -388,9 +394,13 @@ def scan_assumptions(cfg):
         if g["engine"] == "kani":
             for m in ["spec", "vk"] + g["modules"]:
                 files.add(os.path.join(KDIR, m + ".rs"))
-        else:
+        elif g["engine"] == "verus":
             files.add(os.path.join(VDIR, g["spec"]))
-            files.add(os.path.join(VDIR, "prelude.rs"))
+            for extra in ("prelude", "lemmas"):
+                try:
+                    files.add(os.path.join(VDIR, json.load(open(os.path.join(VDIR, g["spec"])))[extra]))
+                except Exception:
+                    pass
     pats = [r"kani::assume\(", r"#\[kani::stub\(", r"stub_verified", r"\bassume\(", r"\badmit\(",
             r"external_body", r"assume_specification", r"\bunsafe\b", r"external_type_specification"]
     for f in sorted(files):
@@ -555,6 +565,17 @@ def do_check(pid, cfg, tier, seed, ws, injected, args, t0):
                 elif r["status"] != "SUCCESSFUL":
                     undecided.append("%s: harness %s status %s: %s" % (g["name"], h, r["status"], r["raw"][-300:].replace("\n", " | ")))
             group_reports.append(rep)
+        elif g["engine"] == "static":
+            env = dict(ENV, CARGO_TARGET_DIR=os.path.join(SCRATCH, "target-static"))
+            rc, out, wall = run(["sh", "-c", g["cmd"]], cwd=ws, timeout=1200, env=env)
+            cmds.append(g["cmd"])
+            open(os.path.join(workdir, g["name"] + ".log"), "w").write(out)
+            group_reports.append({"group": g["name"], "engine": "static build obligation (not a deductive proof)", "bounded": False,
+                                  "bounds": "n/a", "wall_s": round(wall, 1), "rc": rc})
+            static_ok = rc == 0
+            if not static_ok:
+                failures.append((g, {"harness": g["name"], "full": "static::" + g["name"], "raw": out[-3000:], "verus": True},
+                                 "%s/%s/static-obligation-failed" % (pid, g["name"]), g["cmd"]))
         elif g["engine"] == "verus":
             v = run_verus_group(ws, g, workdir)
             cmds.append(" ".join(v["cmd"]))
@@ -703,6 +724,9 @@ def do_check(pid, cfg, tier, seed, ws, injected, args, t0):
 def collect_named(cfg):
     out = []
     for g in cfg["groups"]:
+        if g["engine"] == "static":
+            out.append("static:" + g["cmd"])
+            continue
         if g["engine"] != "kani":
             sp = os.path.join(VDIR, g["spec"])
             if os.path.exists(sp):
